@@ -549,7 +549,8 @@ impl RoutingThread {
                     fetched_blocks.push((peer_index, *hash));
                 } else {
                     // if we already have the block added don't need to request it from peer
-                    self.blockchain_sync_state.remove_entry(*hash);
+                    self.blockchain_sync_state
+                        .remove_entry_unless_in_flight(*hash, Some(peer_index));
                 }
             }
         }
@@ -828,7 +829,8 @@ impl ProcessEvent<RoutingEvent> for RoutingThread {
                 ))
                 .await;
 
-                self.blockchain_sync_state.mark_as_fetched(block_hash);
+                self.blockchain_sync_state
+                    .mark_as_fetched_from_peer(block_hash, peer_index);
 
                 self.fetch_next_blocks().await;
 
@@ -893,7 +895,8 @@ impl ProcessEvent<RoutingEvent> for RoutingThread {
                     "received blockchain update event : {:?}",
                     block_hash.to_hex()
                 );
-                self.blockchain_sync_state.remove_entry(block_hash);
+                self.blockchain_sync_state
+                    .remove_entry_unless_in_flight(block_hash, None);
                 self.fetch_next_blocks().await;
             }
 
